@@ -55,6 +55,24 @@ class Module:
         from .normalize import normalize
         self.normal_form = normalize(name, self.tree)
         SHARED = (ast.expr_context, ast.boolop, ast.operator, ast.unaryop, ast.cmpop)   # CPython shares one instance of each per interpreter
+        # document order of the NORMAL FORM (inlined code keeps the line numbers of where it was written, for reports; order
+        # questions - does this store precede that use? - are answered with pos(), never with line numbers)
+        counter = [0]
+
+        def number(n):
+            if isinstance(n, SHARED):
+                return
+            counter[0] += 1
+            n._pos = (counter[0], 0)
+            for c in ast.iter_child_nodes(n):
+                number(c)
+        import sys as _sys
+        old_limit = _sys.getrecursionlimit()
+        _sys.setrecursionlimit(max(old_limit, 10000))
+        try:
+            number(self.tree)
+        finally:
+            _sys.setrecursionlimit(old_limit)
         for parent in ast.walk(self.tree):
             for child in ast.iter_child_nodes(parent):
                 if not isinstance(child, SHARED):
@@ -188,6 +206,12 @@ class Repo:
 
 
 # ------------------------------------------------------------------ AST helpers
+
+def pos(node):
+    """position of a node in the document order of the analysed (normal) form; use this, not line numbers, to ask what comes first"""
+    p = getattr(node, "_pos", None)
+    return p if p is not None else (getattr(node, "lineno", 0), getattr(node, "col_offset", 0))
+
 
 def src(node):
     """normalised source text of a node (used for keys and reports; never for matching rules)"""
